@@ -979,6 +979,16 @@ CORPUS = [
                "JOURNAL 'Checking' FROM year = 2022", '.run jrn', "JOURNAL 'Checking' FROM year = 2022",
                'SELECT date, account, position FROM OPEN ON 2022-01-01', '.run openonly',
                'SELECT date, account, position FROM OPEN ON 2022-01-01']},
+    # round 8 (seed C19-m16: the default CLOSE date of `.run` kept as shell state and not reset when the named query fails):
+    # a `.run` of a named query that does not parse / does not compile, then statements with a FROM clause and no CLOSE
+    {'ledger': 'C', 'format': 'text', 'numberify': False,
+     'lines': ['.run bad', 'SELECT date, account, position FROM year = 2022', '.run nocol',
+               'SELECT date, account, position FROM year = 2022', 'BALANCES FROM year = 2022', '.run fromq',
+               'SELECT date, account, position FROM year = 2022', '.run *', 'SELECT date, account, position FROM year = 2022',
+               "JOURNAL 'Checking' FROM year = 2022"]},
+    {'ledger': 'C', 'format': 'csv', 'numberify': True,
+     'lines': ['.run nocol', 'BALANCES FROM year = 2022', '.run bad', "JOURNAL 'Checking' FROM year = 2022",
+               'SELECT date, account, position FROM OPEN ON 2022-01-01', '.run *', 'PRINT FROM year = 2022']},
     {'ledger': 'A', 'format': 'text', 'numberify': False, 'lines': ['.set getstr 1']},
     {'ledger': 'A', 'format': 'text', 'numberify': False, 'lines': ['.set getstr']},
     {'ledger': 'A', 'format': 'text', 'numberify': False, 'lines': ['.set __doc__ zz', '.set']},
